@@ -325,6 +325,7 @@ class Monitor(object):
         self.shapes = set()
         self.counts = {}
         self.apply_seen = {}  # line of apply -> (ci, tag of the calibration)
+        self.values_seen = {}  # line of get_parameter_values -> (live, solved)
 
     # ------------------------------------------------------------ plumbing
     def bad(self, what, fn, detail):
@@ -530,6 +531,7 @@ class Monitor(object):
             return
         if ret == 0:
             vn.cal = "fresh"
+            vn.solved_z0, vn.solved_freq = vn.z0, vn.freq
             for h in vn.holds:
                 p = vn.vc.params.get(h)
                 if p is not None and p.kind in ("unknown", "correlated"):
@@ -578,9 +580,12 @@ class Monitor(object):
         else:
             self.count("add_calibration_new_in_hole" if ret < vc.end()
                        else "add_calibration_new_at_end")
+        # z0 / frequencies changed between solve and add: which values the
+        # stored calibration carries is not documented
+        z0 = vn.z0 if getattr(vn, "solved_z0", None) == vn.z0 else None
+        fr = vn.freq if getattr(vn, "solved_freq", None) == vn.freq else None
         vc.cals[ret] = Cal(name, vn.type, vn.rows, vn.cols, vn.F,
-                           list(vn.freq) if vn.freq else None, vn.z0, None,
-                           ev.get("i"))
+                           list(fr) if fr else None, z0, None, ev.get("i"))
         vn.cal = "maybe"    # whether it can be added twice is not documented
 
     def op_vnacal_delete_calibration(self, a, bind, ev, ret):
@@ -1144,6 +1149,9 @@ class Monitor(object):
         fv = self.bufv(a[2])
         if vc is None or fv is None or not isinstance(ret, list):
             return
+        p_ = vc.params.get(self.val(a[1]))
+        self.values_seen[ev.get("i")] = (p_ is not None,
+                                         bool(p_ is not None and p_.solved))
         for f, got in zip(fv, ret):
             self.eval_param("vnacal_get_parameter_value", vc, self.val(a[1]),
                             f, got, ev)
